@@ -78,6 +78,30 @@ def uninstall_parse_memo():
         _ORIG_PARSE = None
 
 
+def _parse_worker(text):
+    parse = _ORIG_PARSE
+    if parse is None:
+        import beanquery.parser as bqp
+        parse = bqp.parse
+    try:
+        return text, parse(text)
+    except Exception:  # noqa  (the statement will raise again, and be reported, where it is executed)
+        return text, None
+
+
+def preparse(texts, procs=8):
+    """parse the distinct statement texts of a batch in worker processes (the ASTs pickle) and seed the memo"""
+    import concurrent.futures as cf
+    import multiprocessing
+    todo = sorted(t for t in set(texts) if t not in _PARSED)
+    if len(todo) < 24:
+        return
+    with cf.ProcessPoolExecutor(procs, mp_context=multiprocessing.get_context('fork')) as ex:
+        for text, ast in ex.map(_parse_worker, todo, chunksize=6):
+            if ast is not None:
+                _PARSED[text] = ast
+
+
 class unpatched_parser:
     def __enter__(self):
         import beanquery.parser as bqp
@@ -831,15 +855,20 @@ def run(ctx):
         return not only or leg in only
     # ---- MC
     if want('MC'):
-        cfg = ctx.pick('MC_Statements.cfg', 'MC_Statements4.cfg')
-        res = ctx.tlc('MC_Statements', cfg, leg='MC', jvm=JVM, timeout=ctx.pick(900, 3000),
-                      must_cover=('Rewrite', 'CompilePrint', 'Scan', 'Finalize', 'Order', 'Strip', 'PrintScan', 'PrintEmit'))
-        if res.violated:
-            ctx.violation('spec:' + ','.join(res.violated), 'the expansion does not denote the declarative meaning',
-                          {'behaviour': res.behaviour[:3000]}, 'MC')
-        for v in ('no_where', 'order_by_name', 'balance_raw', 'print_keeps_null'):
-            ctx.tlc('MC_Statements', 'MC_Statements_%s.cfg' % v, leg='MC-nonvacuity', expect_violation='DenoteIsMeaning',
-                    workers=4, jvm=JVM)
+        import concurrent.futures as cf
+        # the four non-vacuity runs (small, they stop at the first counterexample) run next to the exhaustive one
+        with cf.ThreadPoolExecutor(5) as pool:
+            futs = [pool.submit(ctx.tlc, 'MC_Statements', 'MC_Statements_%s.cfg' % v, leg='MC-nonvacuity',
+                                expect_violation='DenoteIsMeaning', workers=2, jvm=JVM)
+                    for v in ('no_where', 'order_by_name', 'balance_raw', 'print_keeps_null')]
+            for cfg in ctx.pick(('MC_Statements.cfg',), ('MC_Statements4.cfg', 'MC_Statements4b.cfg')):
+                res = ctx.tlc('MC_Statements', cfg, leg='MC', jvm=JVM, timeout=ctx.pick(900, 3000), workers=ctx.pick(12, 16),
+                              must_cover=('Rewrite', 'CompilePrint', 'Scan', 'Finalize', 'Order', 'Strip', 'PrintScan', 'PrintEmit'))
+                if res.violated:
+                    ctx.violation('spec:' + ','.join(res.violated), 'the expansion does not denote the declarative meaning',
+                                  {'behaviour': res.behaviour[:3000]}, 'MC')
+            for f in futs:
+                f.result()
     tables = load_tables(ctx)
     install_parse_memo()
     try:
@@ -849,11 +878,12 @@ def run(ctx):
                           timeout=ctx.pick(900, 3000))
             cases = res.printed
             ctx.log('S2C: %d cases emitted' % len(cases))
+            preparse([text_of(sh[k]) for sh in tables['shapes'] + tables['printshapes'] for k in ('short', 'expanded')])
             replay_posting_cases(ctx, tables, [c for c in cases if c['t'] == 'postings'], 'posting_cases')
             replay_print_cases(ctx, tables, [c for c in cases if c['t'] == 'entries'], 'print_cases')
-            nsim = ctx.pick(2500, 40000)
+            nsim = ctx.pick(1500, 40000)
             w = 4
-            res = ctx.tlc('Gen_Statements', 'Gen_StatementsSim.cfg', leg='GEN-sim', simulate='num=%d' % max(1, nsim // (w * 12)),
+            res = ctx.tlc('Gen_Statements', 'Gen_StatementsSim.cfg', leg='GEN-sim', simulate='num=%d' % max(1, nsim // (w * 5)),
                           depth=7, seed=ctx.seed, workers=w, jvm=JVM)
             cases = res.printed
             ctx.log('S2C: %d simulated cases emitted' % len(cases))
@@ -871,16 +901,18 @@ def run(ctx):
             # small: the whole pool as one ledger, every shape of the big table (this is where every clause subset runs)
             led = tuple(sorted(range(1, len(tables['pool']) + 1), key=lambda k: tables['pool'][k - 1]['txn']))
             allidx = list(range(len(big)))
-            nrun += record_ledger(ctx, rec, 'pool', build_pool_ledger(tables, led), None, big,
-                                  allidx if not ctx.quick else rng.sample(allidx, 260), psh)
+            # quick: one seeded subset of the big table, used on every ledger (parsing a text costs 30-100 ms)
+            subset = sorted(rng.sample(allidx, 150)) if ctx.quick else allidx
+            preparse([text_of(big[i][k]) for i in subset for k in ('short', 'expanded')])
+            nrun += record_ledger(ctx, rec, 'pool', build_pool_ledger(tables, led), None, big, subset, psh)
             # random ledgers
-            for k in range(ctx.pick(6, 40)):
+            for k in range(ctx.pick(5, 40)):
                 entries = random_ledger(rng, rng.choice([3, 8, 20, 40]))
-                nrun += record_ledger(ctx, rec, 'random-%d' % k, entries, None, big, rng.sample(allidx, ctx.pick(60, 150)), psh)
+                nrun += record_ledger(ctx, rec, 'random-%d' % k, entries, None, big,
+                                      subset if ctx.quick else rng.sample(allidx, 200), psh)
             # the example ledger
             entries, options = example_ledger(ctx, ctx.pick(1, 2))
-            nrun += record_ledger(ctx, rec, 'example', entries, options, big,
-                                  rng.sample(allidx, 110) if ctx.quick else allidx, psh)
+            nrun += record_ledger(ctx, rec, 'example', entries, options, big, subset, psh)
             psh.attach(entries, options)
             unfiltered_print_roundtrip(ctx, psh, entries, 'example')
             rec.close()
